@@ -411,5 +411,5 @@ func js(v *model.Value) string {
 }
 
 func TestProp(t *testing.T) {
-	hx.RunProperty(t, hx.NewSub("merge", 6000, 50000, genCase, check))
+	hx.RunProperty(t, hx.NewSub("merge", 6000, 50000, genCase, check), hx.NewSub("anchored", 1500, 10000, genAnch, checkAnch))
 }
